@@ -48,6 +48,7 @@ func init() {
 			{Name: "sinks", Run: supervised(runSinks)},
 			{Name: "globals", Run: supervised(runGlobals)},
 			{Name: "descriptors", Run: supervised(runDescriptors)},
+			{Name: "deep-source", Run: supervised(runDeepSource)},
 			{Name: "bytes", Run: supervised(runBytes)},
 			{Name: "tokens", Run: supervised(runTokens)},
 			{Name: "recursion", Run: supervised(runRecursion)},
